@@ -7,7 +7,7 @@ ADDENDA = {
            "are there to be read).",
     "C03": "Handler bodies are also real files, streams positioned behind a consumed preamble and plain streams; a stalled "
            "client must not keep other clients from being served; a missing response is an observation with evidence "
-           "(request worker blocked in a receive), judged, not an infrastructure error. A client that stops reading in the middle of a multi-megabyte body and resumes later; storms of connections reset before their request head is complete followed by ordinary requests (an accepting thread that sits in the handling of one connection is the evidence for a missing response).",
+           "(request worker blocked in a receive), judged, not an infrastructure error. A client that stops reading in the middle of a multi-megabyte body and resumes later; storms of connections reset before their request head is complete followed by ordinary requests (an accepting thread that sits in the handling of one connection is the evidence for a missing response). Raising handlers raise eleven exception classes, connection errors among them.",
     "C04": "Served tree and request alphabet contain names with '+' and blanks. Requests with an embedded URL (://) in the query string or the path.",
     "C05": "A third of the handler cases run after one or two earlier requests on the SAME handler object. Update handler: the decodability of the request body is part of the model (bad_request only after the access decision; unauthorised_sqlite_body_irrelevant). IPv6 clients one bit away from the IPv4-mapped form of an allowed address are generated on every run.",
     "C09": "The request port starts a transfer only for a datagram of the RFC shape stated on the bytes (rfcShape, "
@@ -21,10 +21,10 @@ ADDENDA = {
            "wrapper source: differential on the implementation only.",
     "C14": "Histories contain in-place rewrites of equal length with the old mtime restored (only ctime differs). A liberal line format whose main expression also matches commented-out entries (the ignore expression wins), on every run.",
     "C15": "Deterministic kill points: the writer is SIGKILLed at the entry of its k-th pwrite64 / fdatasync / unlink / "
-           "ftruncate (strace injection); a database a fresh process cannot read is a violation. Histories in which a long-lived source is asked for other systems between a change and the next read; a second connection's complete call placed between two SQL statements of a call (results and rows must be those of one of the two sequential orders computed by the model).",
+           "ftruncate (strace injection); a database a fresh process cannot read is a violation. Histories in which a long-lived source is asked for other systems between a change and the next read; a second connection's complete call placed between two SQL statements of a call (results and rows must be those of one of the two sequential orders computed by the model). Reads of 17 to 40 rows.",
     "C17": "Context values are also mappings, sets and numbers; include names absolute with a dot-dot segment; import_json / "
            "import_yaml of data files; replacements that keep the mtime and a rewrite landing right after the engine read "
-           "the rendered file (both without root_dir only). Optional includes (ignore missing) are part of the template syntax of model and reference (Node.inclOpt, inclOpt_meaning).",
+           "the rendered file (both without root_dir only). Optional includes (ignore missing) are part of the template syntax of model and reference (Node.inclOpt, inclOpt_meaning). In-place rewrites of equal size with the old modification time restored (only the ctime differs).",
     "C06": "Every special character of URLs and pattern languages inside the looked-up value, the remaining path and next to "
            "a fixed segment, on every run; transformations given by keyword with other handlers of the same process using "
            "the same keyword names and other values. Values that are not str carry their type in every observation.",
@@ -35,5 +35,5 @@ ADDENDA = {
     "C19": "The LRU component also exercises Mapping.get(key, default); a YAML scenario with a cache too small for two systems. Reads that fail inside the store between other calls (a lock left behind is a deadlock); text source without cache.",
     "C20": "The REAL start()/stop()/_run of both servers run under a deterministic scheduler (every source line a pre-emption "
            "point, every single pre-emption of pairs and triples of caller programs, plus random schedules; a busy request "
-           "handler during stop(); bounded joins time out) and every run is replayed on the Lean lifecycle models. An HTTP/1.1 client that stays connected after its response (worker threads end with their response); handlers raising while being asked must not end the request-port thread.",
+           "handler during stop(); bounded joins time out) and every run is replayed on the Lean lifecycle models. An HTTP/1.1 client that stays connected after its response (worker threads end with their response); handlers raising while being asked must not end the request-port thread. A POST whose handler reads the body, from a client that stays connected.",
 }
